@@ -47,6 +47,11 @@ func (c *fctx) isNonneg(e ast.Expr) bool {
 		if x.Op == token.ADD || x.Op == token.MUL {
 			return isGoInt(tv.Type) && c.isNonneg(x.X) && c.isNonneg(x.Y)
 		}
+		if x.Op == token.QUO || x.Op == token.REM {
+			// truncated division of non-negative operands by a positive constant is Nat division
+			dv := c.info.Types[x.Y]
+			return isGoInt(tv.Type) && c.isNonneg(x.X) && dv.Value != nil && constant.Sign(dv.Value) > 0
+		}
 	}
 	return false
 }
@@ -164,8 +169,13 @@ func (c *fctx) natTerm(e ast.Expr) (string, bool) {
 		l, _ := c.natTerm(x.X)
 		r, _ := c.natTerm(x.Y)
 		op := "+"
-		if x.Op == token.MUL {
+		switch x.Op {
+		case token.MUL:
 			op = "*"
+		case token.QUO:
+			op = "/"
+		case token.REM:
+			op = "%"
 		}
 		return "(" + l + " " + op + " " + r + ")", true
 	}
